@@ -34,10 +34,27 @@ def trange(ty):
 
 
 class IntV:
-    __slots__ = ("p", "ty", "modof")
+    """integer value. modof=(X, a): value == X mod 2^a.  sel: when set, value == sel * (2^w - 1) with sel in {0, 1} (an all-or-nothing mask)"""
+    __slots__ = ("p", "ty", "modof", "sel")
 
-    def __init__(self, p, ty, modof=None):
-        self.p, self.ty, self.modof = DP.lift(p), ty, modof
+    def __init__(self, p, ty, modof=None, sel=None):
+        self.p, self.ty, self.modof, self.sel = DP.lift(p), ty, modof, sel
+
+
+class XorV:
+    """a ^ b of two symbolic integers, kept symbolic until it is masked and folded back (constant-time select idiom)"""
+    __slots__ = ("a", "b", "ty")
+
+    def __init__(self, a, b, ty):
+        self.a, self.b, self.ty = a, b, ty
+
+
+class MaskedXorV:
+    """mask & (a ^ b) with mask = sel * all-ones"""
+    __slots__ = ("sel", "a", "b", "ty")
+
+    def __init__(self, sel, a, b, ty):
+        self.sel, self.a, self.b, self.ty = sel, a, b, ty
 
     def __repr__(self):
         return "IntV(%s:%s)" % (self.p.t if len(self.p.t) < 4 else "...", self.ty)
@@ -232,6 +249,23 @@ class Interp:
             if op in ("BitAnd", "BitOr", "BitXor", "Eq", "Ne"):
                 f = {"BitAnd": lambda x, y: x and y, "BitOr": lambda x, y: x or y, "BitXor": lambda x, y: x != y, "Eq": lambda x, y: x == y, "Ne": lambda x, y: x != y}[op]
                 return BoolV(f(a.b, b.b))
+        # constant-time select idiom:  x ^= mask & (x ^ y)   with mask all-or-nothing
+        if op == "BitAnd":
+            for (m, x) in ((a, b), (b, a)):
+                if isinstance(m, IntV) and m.sel is not None and isinstance(x, XorV):
+                    return MaskedXorV(m.sel, x.a, x.b, x.ty)
+                if isinstance(m, IntV) and m.sel is not None and isinstance(x, IntV):
+                    return IntV(m.sel * x.p, x.ty)
+        if op == "BitXor":
+            for (x, mx) in ((a, b), (b, a)):
+                if isinstance(x, IntV) and isinstance(mx, MaskedXorV):
+                    if x.p.e == mx.a.p.e:
+                        return IntV(mx.a.p + mx.sel * (mx.b.p - mx.a.p), x.ty)
+                    if x.p.e == mx.b.p.e:
+                        return IntV(mx.b.p + mx.sel * (mx.a.p - mx.b.p), x.ty)
+                    raise Unsupported("masked xor folded into an unrelated value at %s" % where)
+            if isinstance(a, IntV) and isinstance(b, IntV) and not (a.p.is_const() and b.p.is_const()):
+                return XorV(a, b, a.ty)
         if not (isinstance(a, IntV) and isinstance(b, IntV)):
             raise Unsupported("binop %s on %r, %r at %s" % (op, type(a).__name__, type(b).__name__, where))
         ty = a.ty
@@ -404,7 +438,10 @@ class Interp:
         `fe64::<impl at ..>::square` vs `fe64::Fe::square`): match on the last path segment, then on shared module segments"""
         if name in table:
             return name
-        last = re.sub(r"::<[^>]*>$", "", name).split("::")[-1]
+        parts = re.sub(r"::<[^>]*>$", "", name).split("::")
+        last = parts[-1]
+        if re.match(r"^(promoted\[\d+\]|\{constant#\d+\})$", last) and len(parts) >= 2:
+            last = parts[-2] + "::" + last      # promoted constants are numbered per function
         cands = [k for k in table if k == last or k.endswith("::" + last)]
         if len(cands) > 1:
             segs = [x for x in re.split(r"::", name)[:-1] if x and not x.startswith("<")]
@@ -553,7 +590,9 @@ class Interp:
     def oblige(self, kind, where, what, p, lo, hi):
         self.obligations.append(dict(kind=kind, where=where, what=what, poly=p, lo=lo, hi=hi))
 
-    def run(self, f, args):
+    def run(self, f, args, start=0, stop=None, frame=None):
+        """interpret body f. With start/stop/frame: run the fragment from block `start` with the given local values until control
+        reaches block `stop` (not executed); returns the frame {local: Cell}."""
         self.stats["calls"] += 1
         self.stats["functions"].add(f.name)
         fr = {}
@@ -562,8 +601,14 @@ class Interp:
         fr.setdefault(0, Cell(None))
         for (n, _t), v in zip(f.args, args):
             fr[n] = Cell(v)
-        bb = 0
+        for n, v in (frame or {}).items():
+            fr[n] = Cell(v)
+        bb = start
+        first = True
         while True:
+            if stop is not None and bb == stop and not first:
+                return fr
+            first = False
             self.stats["blocks"] += 1
             if self.stats["blocks"] > self.max_blocks:
                 raise Unsupported("block budget exhausted")
@@ -626,6 +671,9 @@ class Interp:
 
     # ------------------------------------------------------------------ calls
     def call(self, fname, argv, where):
+        for (rx, hook) in getattr(self, "hooks", []) or []:
+            if rx.search(fname):
+                return hook(argv, where, fname)
         f = self.find_fn(fname, len(argv))
         if f is not None:
             return self.run(f, argv)
@@ -698,6 +746,12 @@ class Interp:
             if meth == "wrapping_add":
                 return self.wrap(a[0].p + a[1].p, ty)
             if meth == "wrapping_sub":
+                if a[1].p.is_const() and a[1].p.cval() == 1:
+                    lo, hi = self.bound(a[0].p)
+                    if lo >= 0 and hi <= 1 and not tbits(ty)[1]:
+                        # b.wrapping_sub(1) with b in {0,1}: all-ones when b == 0, zero when b == 1
+                        sel = DP.const(1) - a[0].p
+                        return IntV(sel.scale(trange(ty)[1]), ty, sel=sel)
                 return self.wrap(a[0].p - a[1].p, ty)
             if meth == "wrapping_mul":
                 return self.wrap(a[0].p * a[1].p, ty)
